@@ -1,7 +1,903 @@
 package main
 
-import "capnproto.org/go/capnp/v3/zverif/common"
+import (
+	"context"
+	"fmt"
+	"strings"
+	"sync"
+	"sync/atomic"
+
+	"capnproto.org/go/capnp/v3"
+	"capnproto.org/go/capnp/v3/rpc"
+	"capnproto.org/go/capnp/v3/zverif/common"
+	"capnproto.org/go/capnp/v3/zverif/rpcbench"
+)
+
+// Duo mode: two real Conns joined by tap transports (both directions
+// recorded), 2-8 application goroutines issuing calls / pipelines / releases
+// with the yield policy on the verifhook sites.  The goroutines work in
+// rounds; between rounds the coordinator waits for a quiescent point and
+// checks conservation of capability references between the two Conns and
+// against the wire log.
+
+type dSide struct {
+	name    string
+	conn    *rpc.Conn
+	tap     *rpcbench.Tap
+	boot    *rpcbench.LocalCap
+	locals  []*rpcbench.LocalCap
+	base    map[int]*rpcbench.Handle // harness references to the local capabilities (released at the end)
+	rep     *errCollector
+	closed  int32
+}
+
+type dHandle struct {
+	h      *rpcbench.Handle
+	target *rpcbench.LocalCap // capability it designates (nil if unknown)
+	key    int
+}
+
+type dCall struct {
+	uid      uint64
+	stream   uint32
+	seq      uint32
+	ans      *capnp.Answer
+	release  capnp.ReleaseFunc
+	plan     *rpcbench.CallPlan
+	target   *rpcbench.LocalCap // expected observer (nil unknown)
+	parent   *dCall
+	path     []int
+	resCaps  map[int]*rpcbench.LocalCap // result slot -> capability expected there
+	nested   map[int]bool
+	expectExc bool
+	mayFail  bool // pipelined on something that may fail / closed
+	resolved bool
+	ok       bool
+	released bool
+	embargo  bool
+}
+
+type dWorker struct {
+	d       *duo
+	id      int
+	side    int
+	rng     *common.RNG
+	handles []*dHandle
+	calls   []*dCall
+	boot    *dHandle
+	nextKey int
+	streams map[int]uint32
+	seqs    map[uint32]uint32
+	viols   [][3]string
+	cnt     map[string]int64
+	// pipelined calls answered "call on null client": classified by the
+	// coordinator from the event log
+	undelivered [][3]uint64
+}
+
+type duo struct {
+	*env
+	rng     *common.RNG
+	w       *rpcbench.World
+	pol     *rpcbench.YieldPolicy
+	sides   [2]*dSide
+	workers []*dWorker
+	uidN    uint64
+	streamN uint32
+	closing int32 // a Conn was closed while workers run: errors are expected
+	cnt     map[string]int64
+	vmu     sync.Mutex
+}
+
+func (d *duo) newUID() uint64    { return 0x2000 + atomic.AddUint64(&d.uidN, 1) }
+func (d *duo) newStream() uint32 { return atomic.AddUint32(&d.streamN, 1) }
+
+func (wk *dWorker) viol(sig, what string) {
+	wk.viols = append(wk.viols, [3]string{sig, what, wk.d.log.Tail(40)})
+}
+
+func (wk *dWorker) count(k string, n int64) { wk.cnt[k] += n }
+
+func (wk *dWorker) streamOf(key int) (uint32, uint32) {
+	st, ok := wk.streams[key]
+	if !ok {
+		st = wk.d.newStream()
+		wk.streams[key] = st
+	}
+	wk.seqs[st]++
+	return st, wk.seqs[st]
+}
+
+func (wk *dWorker) other() *dSide { return wk.d.sides[1-wk.side] }
+func (wk *dWorker) mine() *dSide  { return wk.d.sides[wk.side] }
+
+func (wk *dWorker) lenient() bool { return atomic.LoadInt32(&wk.d.closing) != 0 }
+
+// makeCall prepares plan, bookkeeping and Send for a call whose observer is
+// expected to be target (may be nil).
+func (wk *dWorker) makeCall(streamKey int, target *rpcbench.LocalCap, allowCaps bool) (*dCall, capnp.Send) {
+	d := wk.d
+	c := &dCall{uid: d.newUID(), target: target, resCaps: map[int]*rpcbench.LocalCap{}, nested: map[int]bool{}}
+	c.stream, c.seq = wk.streamOf(streamKey)
+	plan := &rpcbench.CallPlan{UID: c.uid, Behaviour: wk.rng.Intn(rpcbench.NumBehaviours), ObserveCtx: wk.rng.Bool()}
+	c.expectExc = plan.Behaviour == rpcbench.BehExcNow || plan.Behaviour == rpcbench.BehAckBlockExc
+	// parameters: capabilities of my own side
+	type param struct {
+		lc     *rpcbench.LocalCap
+		client *capnp.Client
+		slot   int
+		copies int
+		nested bool
+	}
+	var params []param
+	argCap := map[int]*rpcbench.LocalCap{}
+	if allowCaps {
+		for n := wk.rng.Intn(3); n > 0; n-- {
+			slot := wk.rng.Intn(rpcbench.NumPtr)
+			if _, used := argCap[slot]; used {
+				continue
+			}
+			p := param{slot: slot, copies: 1, nested: wk.rng.Chance(1, 5)}
+			if wk.rng.Chance(1, 3) {
+				p.copies = wk.rng.Range(2, 5)
+			}
+			if len(wk.handles) > 0 && wk.rng.Chance(1, 4) {
+				// pass one of my imports back (receiverHosted on the wire)
+				h := wk.handles[wk.rng.Intn(len(wk.handles))]
+				if h.target == nil {
+					continue
+				}
+				p.lc, p.client = h.target, h.h.C
+			} else {
+				ls := wk.mine().locals
+				p.lc = ls[wk.rng.Intn(len(ls))]
+				p.client = wk.mine().base[p.lc.N].C
+			}
+			argCap[slot] = p.lc
+			params = append(params, p)
+		}
+	}
+	// results
+	if allowCaps && !c.expectExc {
+		used := map[int]bool{}
+		for n := wk.rng.Intn(3); n > 0; n-- {
+			slot := wk.rng.Intn(rpcbench.NumPtr)
+			if used[slot] {
+				continue
+			}
+			used[slot] = true
+			rc := rpcbench.ResCap{Slot: slot, ArgSlot: -1, Nested: wk.rng.Chance(1, 4)}
+			if wk.rng.Chance(1, 3) {
+				rc.Extra = wk.rng.Intn(5)
+			}
+			var lc *rpcbench.LocalCap
+			if len(params) > 0 && wk.rng.Bool() {
+				p := params[wk.rng.Intn(len(params))]
+				rc.ArgSlot = p.slot
+				lc = p.lc
+			} else {
+				ls := wk.other().locals
+				lc = ls[wk.rng.Intn(len(ls))]
+				base := wk.other().base[lc.N]
+				rc.H = d.w.AddHandle(&rpcbench.Handle{C: base.C.AddRef(), Label: fmt.Sprintf("plan-%x", c.uid), Local: lc, Plan: c.uid, Who: wk.other().name})
+			}
+			plan.ResCaps = append(plan.ResCaps, rc)
+			c.resCaps[slot] = lc
+			c.nested[slot] = rc.Nested
+		}
+	}
+	c.plan = d.w.Plan(plan)
+	uid, stream, seq := c.uid, c.stream, c.seq
+	send := capnp.Send{
+		Method:   rpcbench.BenchMethod,
+		ArgsSize: rpcbench.ContentSize,
+		PlaceArgs: func(st capnp.Struct) error {
+			ct := rpcbench.NewContent(uid)
+			ct.Stream, ct.Seq = stream, seq
+			msg := st.Message()
+			for _, p := range params {
+				first := -1
+				for k := 0; k < p.copies; k++ {
+					id := msg.AddCap(p.client.AddRef())
+					if first < 0 {
+						first = int(id)
+					}
+				}
+				ct.Slots[p.slot] = first
+				ct.Nested[p.slot] = p.nested
+			}
+			return rpcbench.FillStruct(st, &ct)
+		},
+	}
+	wk.calls = append(wk.calls, c)
+	wk.count("calls_issued", 1)
+	return c, send
+}
+
+func (wk *dWorker) opCall() {
+	if len(wk.handles) == 0 {
+		return
+	}
+	h := wk.handles[wk.rng.Intn(len(wk.handles))]
+	c, send := wk.makeCall(h.key, h.target, true)
+	c.ans, c.release = h.h.C.SendCall(context.Background(), send)
+}
+
+func (wk *dWorker) opPipeline() {
+	var cands []*dCall
+	for _, c := range wk.calls {
+		if !c.released && !c.embargo && len(c.resCaps) > 0 {
+			cands = append(cands, c)
+		}
+	}
+	if len(cands) == 0 {
+		return
+	}
+	t := cands[wk.rng.Intn(len(cands))]
+	var slots []int
+	for s := range t.resCaps {
+		slots = append(slots, s)
+	}
+	// deterministic choice
+	min := slots[0]
+	for _, s := range slots {
+		if s < min {
+			min = s
+		}
+	}
+	slot := min
+	if len(slots) > 1 && wk.rng.Bool() {
+		slot = slots[wk.rng.Intn(len(slots))]
+	}
+	ops := []capnp.PipelineOp{{Field: uint16(slot)}}
+	path := []int{slot}
+	if t.nested[slot] {
+		ops = append(ops, capnp.PipelineOp{Field: 0})
+		path = append(path, 0)
+	}
+	c, send := wk.makeCall(100000+int(t.uid&0xffff)*8+slot, t.resCaps[slot], false)
+	c.parent = t
+	c.path = path
+	c.mayFail = t.expectExc || t.mayFail
+	if t.resolved {
+		wk.count("pipelined_on_resolved", 1)
+	} else {
+		wk.count("pipelined_on_unresolved", 1)
+	}
+	c.ans, c.release = t.ans.PipelineSend(context.Background(), ops, send)
+}
+
+// releasePlans lets the implementations of c and its ancestors return.
+func (wk *dWorker) releasePlans(c *dCall) {
+	for x := c; x != nil; x = x.parent {
+		x.plan.Release()
+	}
+}
+
+func (wk *dWorker) resolve(c *dCall) {
+	if c.resolved || c.ans == nil {
+		return
+	}
+	if c.parent != nil {
+		wk.resolve(c.parent)
+	}
+	wk.releasePlans(c)
+	st, err := c.ans.Struct()
+	c.resolved = true
+	wk.count("calls_resolved", 1)
+	lenient := wk.lenient()
+	if err != nil {
+		if lenient || c.mayFail || (c.parent != nil && !c.parent.ok) {
+			return
+		}
+		if c.parent != nil && strings.Contains(err.Error(), "call on null client") {
+			var g uint64
+			if c.parent.parent != nil {
+				g = c.parent.parent.uid
+			}
+			wk.undelivered = append(wk.undelivered, [3]uint64{c.uid, c.parent.uid, g})
+		} else if !c.expectExc {
+			wk.viol("C06/local-result-mismatch", fmt.Sprintf("call uid=%x failed with %q, its implementation was to return results", c.uid, err.Error()))
+		} else if !strings.Contains(err.Error(), fmt.Sprintf("boom-%x", c.uid)) {
+			wk.viol("C06/local-result-mismatch", fmt.Sprintf("call uid=%x failed with %q, its implementation raised boom-%x", c.uid, err.Error(), c.uid))
+		}
+		return
+	}
+	c.ok = true
+	if c.expectExc {
+		wk.viol("C06/local-result-mismatch", fmt.Sprintf("call uid=%x returned results, its implementation raised an exception", c.uid))
+		return
+	}
+	if st.Uint64(0) != c.uid^rpcbench.ResultMask || st.Uint32(8) != c.stream || st.Uint32(12) != c.seq {
+		wk.viol("C06/local-result-mismatch", fmt.Sprintf("call uid=%x resolved with uid=%x stream/seq=%d/%d", c.uid, st.Uint64(0), st.Uint32(8), st.Uint32(12)))
+	}
+	if c.target != nil && st.Uint64(16) != uint64(c.target.N) {
+		wk.viol("C06/wrong-target", fmt.Sprintf("call uid=%x was answered by capability #%d, expected #%d", c.uid, st.Uint64(16), c.target.N))
+	}
+}
+
+func (wk *dWorker) opResolve() {
+	var cands []*dCall
+	for _, c := range wk.calls {
+		if !c.resolved && c.ans != nil {
+			cands = append(cands, c)
+		}
+	}
+	if len(cands) == 0 {
+		return
+	}
+	wk.resolve(cands[wk.rng.Intn(len(cands))])
+}
+
+func (wk *dWorker) opTake() {
+	var cands []*dCall
+	for _, c := range wk.calls {
+		if c.resolved && c.ok && !c.released && len(c.resCaps) > 0 {
+			cands = append(cands, c)
+		}
+	}
+	if len(cands) == 0 || len(wk.handles) > 12 {
+		return
+	}
+	c := cands[wk.rng.Intn(len(cands))]
+	st, err := c.ans.Struct()
+	if err != nil {
+		return
+	}
+	for slot, lc := range c.resCaps {
+		p, err := st.Ptr(uint16(slot))
+		if err != nil {
+			continue
+		}
+		var ci capnp.Interface
+		if i := p.Interface(); i.IsValid() {
+			ci = i
+		} else if ns := p.Struct(); ns.IsValid() {
+			q, _ := ns.Ptr(0)
+			ci = q.Interface()
+		}
+		cl := ci.Client()
+		if cl == nil {
+			if !wk.lenient() {
+				wk.viol("C07/result-cap-missing", fmt.Sprintf("results of call uid=%x carry no capability at slot %d", c.uid, slot))
+			}
+			continue
+		}
+		h := wk.d.w.AddHandle(&rpcbench.Handle{C: cl.AddRef(), Label: fmt.Sprintf("w%d-res%d-of-%x", wk.id, slot, c.uid), Who: wk.mine().name})
+		wk.nextKey++
+		wk.handles = append(wk.handles, &dHandle{h: h, target: lc, key: wk.nextKey})
+		wk.count("caps_taken", 1)
+		return
+	}
+}
+
+func (wk *dWorker) opReleaseHandle() {
+	if len(wk.handles) <= 1 {
+		return
+	}
+	i := 1 + wk.rng.Intn(len(wk.handles)-1) // keep the bootstrap client
+	h := wk.handles[i]
+	wk.handles = append(wk.handles[:i], wk.handles[i+1:]...)
+	wk.d.w.ReleaseHandle(h.h)
+	wk.count("handles_released", 1)
+}
+
+func (wk *dWorker) opAddRef() {
+	if len(wk.handles) == 0 || len(wk.handles) > 12 {
+		return
+	}
+	h := wk.handles[wk.rng.Intn(len(wk.handles))]
+	h2 := wk.d.w.AddHandle(&rpcbench.Handle{C: h.h.C.AddRef(), Label: h.h.Label + "+", Who: wk.mine().name})
+	wk.nextKey++
+	wk.handles = append(wk.handles, &dHandle{h: h2, target: h.target, key: wk.nextKey})
+}
+
+func (wk *dWorker) opReleaseAnswer() {
+	for _, c := range wk.calls {
+		if c.resolved && !c.released && wk.rng.Bool() {
+			// children pipelined on it keep working on their own
+			c.released = true
+			c.release()
+			return
+		}
+	}
+}
+
+// opEmbargo: pass one of my capabilities to the other side, which returns
+// it; pipeline calls on the promised answer, then call the resolved
+// capability directly.  One stream: my capability must observe all of them
+// in issue order.
+func (wk *dWorker) opEmbargo() {
+	d := wk.d
+	ls := wk.mine().locals
+	lc := ls[wk.rng.Intn(len(ls))]
+	mine := wk.mine().base[lc.N].C
+	a := &dCall{uid: d.newUID(), target: wk.other().boot, resCaps: map[int]*rpcbench.LocalCap{0: lc}, nested: map[int]bool{}, embargo: true}
+	a.stream, a.seq = wk.streamOf(wk.boot.key)
+	beh := rpcbench.BehAckBlock
+	if wk.rng.Chance(1, 3) {
+		beh = rpcbench.BehAckReturn
+	}
+	a.plan = d.w.Plan(&rpcbench.CallPlan{UID: a.uid, Behaviour: beh, ResCaps: []rpcbench.ResCap{{Slot: 0, ArgSlot: 0}}})
+	uid, stream, seq := a.uid, a.stream, a.seq
+	wk.calls = append(wk.calls, a)
+	a.ans, a.release = wk.boot.h.C.SendCall(context.Background(), capnp.Send{
+		Method: rpcbench.BenchMethod, ArgsSize: rpcbench.ContentSize,
+		PlaceArgs: func(st capnp.Struct) error {
+			ct := rpcbench.NewContent(uid)
+			ct.Stream, ct.Seq = stream, seq
+			ct.Slots[0] = int(st.Message().AddCap(mine.AddRef()))
+			return rpcbench.FillStruct(st, &ct)
+		},
+	})
+	key := 200000 + int(a.uid&0xffff)
+	ops := []capnp.PipelineOp{{Field: 0}}
+	mk := func() (*dCall, capnp.Send) {
+		c := &dCall{uid: d.newUID(), target: lc, parent: a, resCaps: map[int]*rpcbench.LocalCap{}, nested: map[int]bool{}, embargo: true}
+		c.stream, c.seq = wk.streamOf(key)
+		beh := []int{rpcbench.BehReturnNow, rpcbench.BehAckReturn, rpcbench.BehAckReturn, rpcbench.BehExcNow}[wk.rng.Intn(4)]
+		c.expectExc = beh == rpcbench.BehExcNow
+		c.plan = d.w.Plan(&rpcbench.CallPlan{UID: c.uid, Behaviour: beh})
+		cu, cs, cq := c.uid, c.stream, c.seq
+		wk.calls = append(wk.calls, c)
+		wk.count("calls_issued", 1)
+		return c, capnp.Send{Method: rpcbench.BenchMethod, ArgsSize: rpcbench.ContentSize,
+			PlaceArgs: func(st capnp.Struct) error {
+				ct := rpcbench.NewContent(cu)
+				ct.Stream, ct.Seq = cs, cq
+				return rpcbench.FillStruct(st, &ct)
+			}}
+	}
+	for i, n := 0, wk.rng.Range(1, 4); i < n; i++ {
+		c, send := mk()
+		c.ans, c.release = a.ans.PipelineSend(context.Background(), ops, send)
+	}
+	a.plan.Release()
+	wk.resolve(a)
+	if !a.ok {
+		return
+	}
+	var direct *capnp.Client
+	if st, err := a.ans.Struct(); err == nil {
+		if p, err := st.Ptr(0); err == nil {
+			direct = p.Interface().Client()
+		}
+	}
+	for i, n := 0, wk.rng.Range(1, 3); i < n; i++ {
+		c, send := mk()
+		if direct != nil && wk.rng.Bool() {
+			c.ans, c.release = direct.SendCall(context.Background(), send)
+		} else {
+			c.ans, c.release = a.ans.PipelineSend(context.Background(), ops, send)
+		}
+	}
+	wk.count("embargo_rounds", 1)
+}
+
+func (wk *dWorker) round(nOps int) {
+	for i := 0; i < nOps; i++ {
+		switch r := wk.rng.Intn(100); {
+		case r < 28:
+			wk.opCall()
+		case r < 46:
+			wk.opPipeline()
+		case r < 62:
+			wk.opResolve()
+		case r < 70:
+			wk.opTake()
+		case r < 77:
+			wk.opReleaseHandle()
+		case r < 82:
+			wk.opAddRef()
+		case r < 90:
+			wk.opReleaseAnswer()
+		default:
+			wk.opEmbargo()
+		}
+	}
+}
+
+// finishAll resolves and releases everything the worker still holds.
+func (wk *dWorker) finishAll() {
+	for _, c := range wk.calls {
+		wk.resolve(c)
+	}
+	for _, c := range wk.calls {
+		if !c.released && c.release != nil {
+			c.released = true
+			c.release()
+		}
+	}
+	for _, h := range wk.handles {
+		wk.d.w.ReleaseHandle(h.h)
+	}
+	wk.handles = nil
+}
 
 func runDuo(e *env, rng *common.RNG) {
-	e.rec.Case(e.idx, "duo (not yet implemented)")
+	d := &duo{env: e, rng: rng, w: rpcbench.NewWorld(e.log), cnt: map[string]int64{}}
+	level := 1 + rng.Intn(2)
+	d.pol = rpcbench.NewYieldPolicy(rng.Uint64(), level, yieldSites)
+	d.pol.Install()
+	nWorkers := rng.Range(2, 8)
+	nRounds := rng.Range(2, 4)
+	closeEarly := rng.Chance(1, 4)
+	e.rec.Case(e.idx, fmt.Sprintf("duo workers=%d rounds=%d closeEarly=%v yield=%d", nWorkers, nRounds, closeEarly, level))
+	e.input = func() interface{} {
+		return map[string]interface{}{"workers": nWorkers, "rounds": nRounds, "closeEarly": closeEarly, "log": d.log.Dump(1500)}
+	}
+	e.onStuck = func() bool {
+		if len(d.w.BlockedUIDs()) == 0 {
+			return false
+		}
+		d.log.Add(&rpcbench.Event{Kind: rpcbench.EvNote, Who: "S", Note: "coordinator releases blocked implementations (everything else is parked)"})
+		d.w.ReleaseAll()
+		return true
+	}
+	ta, tb := rpcbench.NewTapPair(e.log, "A", "B", d.pol)
+	for i, t := range []*rpcbench.Tap{ta, tb} {
+		s := &dSide{name: t.Name, tap: t, base: map[int]*rpcbench.Handle{}, rep: &errCollector{}}
+		var bc *capnp.Client
+		s.boot, bc = d.w.NewLocalCap(s.name)
+		s.locals = append(s.locals, s.boot)
+		s.base[s.boot.N] = d.w.AddHandle(&rpcbench.Handle{C: bc.AddRef(), Label: "base-boot-" + s.name, Local: s.boot, Who: s.name})
+		for k, n := 0, rng.Range(1, 3); k < n; k++ {
+			lc, c := d.w.NewLocalCap(s.name)
+			s.locals = append(s.locals, lc)
+			s.base[lc.N] = d.w.AddHandle(&rpcbench.Handle{C: c, Label: fmt.Sprintf("base-%s%d", s.name, lc.N), Local: lc, Who: s.name})
+		}
+		s.conn = rpc.NewConn(t, &rpc.Options{BootstrapClient: bc, ErrorReporter: s.rep})
+		d.sides[i] = s
+	}
+	// bootstrap both ways and wait until the clients are resolved (a call
+	// through a bootstrap client that is being resolved can wedge: design
+	// candidate #12, property C11)
+	var boots [2]*capnp.Client
+	for i := range d.sides {
+		i := i
+		if !e.do("Bootstrap "+d.sides[i].name, func() {
+			boots[i] = d.sides[i].conn.Bootstrap(context.Background())
+			boots[i].Resolve(context.Background())
+		}) {
+			return
+		}
+	}
+	for i := 0; i < nWorkers; i++ {
+		wk := &dWorker{d: d, id: i, side: i % 2, rng: rng.Fork(), streams: map[int]uint32{}, seqs: map[uint32]uint32{}, cnt: map[string]int64{}}
+		h := d.w.AddHandle(&rpcbench.Handle{C: boots[wk.side].AddRef(), Label: fmt.Sprintf("w%d-boot", i), Who: d.sides[wk.side].name})
+		wk.boot = &dHandle{h: h, target: d.sides[1-wk.side].boot, key: 0}
+		wk.handles = []*dHandle{wk.boot}
+		d.workers = append(d.workers, wk)
+	}
+	for i := range boots {
+		boots[i].Release()
+	}
+	closeRound := -1
+	if closeEarly {
+		closeRound = rng.Intn(nRounds)
+	}
+	var closeDone int32 = 1
+	for r := 0; r < nRounds && !e.dead; r++ {
+		var left int32 = int32(len(d.workers))
+		for _, wk := range d.workers {
+			wk := wk
+			nOps := wk.rng.Range(3, 8)
+			go func() {
+				defer atomic.AddInt32(&left, -1)
+				if p := common.Guard(func() { wk.round(nOps) }); p != nil {
+					wk.viols = append(wk.viols, [3]string{"panic/" + common.TopLibFrame(p.Stack), "panic in worker: " + p.Value, p.Stack})
+				}
+			}()
+		}
+		if r == closeRound {
+			// Close one side while the workers are busy
+			atomic.StoreInt32(&d.closing, 1)
+			atomic.StoreInt32(&closeDone, 0)
+			side := d.sides[rng.Intn(2)]
+			go func() {
+				for i := 0; i < 3; i++ {
+					d.pol.Wire("x")
+				}
+				atomic.StoreInt32(&side.closed, 1)
+				if p := common.Guard(func() { side.conn.Close() }); p != nil {
+					d.vmu.Lock()
+					d.cnt["close_panics"]++
+					d.vmu.Unlock()
+				}
+				atomic.StoreInt32(&closeDone, 1)
+			}()
+		}
+		if !e.await(fmt.Sprintf("workers of round %d", r), func() bool {
+			return atomic.LoadInt32(&left) == 0 && atomic.LoadInt32(&closeDone) == 1
+		}) {
+			break
+		}
+		d.flushWorkerViolations()
+		if atomic.LoadInt32(&d.closing) == 0 {
+			d.quiesceAndCheck(fmt.Sprintf("after round %d", r), false)
+		}
+	}
+	if !e.dead {
+		d.finish()
+	}
+	for k, v := range d.cnt {
+		e.rec.Count("duo_"+k, v)
+	}
+	for _, wk := range d.workers {
+		for k, v := range wk.cnt {
+			e.rec.Count("duo_"+k, v)
+		}
+	}
+	for site, n := range d.pol.Histogram() {
+		e.rec.Count(fmt.Sprintf("site_%d", site), n)
+	}
+	e.rec.Count("events_logged", int64(d.log.Len()))
+	if !e.dead {
+		e.rec.Distinct(d.log.OrderHash())
+		if atomic.LoadInt32(&e.violated) == 0 && e.rec.WantSample() {
+			e.rec.Sample(map[string]interface{}{"case": e.idx, "mode": "duo", "workers": nWorkers, "rounds": nRounds, "events": d.log.Len()})
+		}
+	}
+}
+
+func (d *duo) flushWorkerViolations() {
+	for _, wk := range d.workers {
+		for _, v := range wk.viols {
+			d.violate(v[0], v[1], v[2])
+		}
+		wk.viols = nil
+		for _, u := range wk.undelivered {
+			sig := classifyUndelivered(d.log.Snapshot(), u[0], u[1], u[2])
+			d.violate(sig, fmt.Sprintf("pipelined call uid=%x (on uid=%x) was answered \"call on null client\" without reaching its target", u[0], u[1]), d.log.Tail(60))
+		}
+		wk.undelivered = nil
+	}
+}
+
+func (d *duo) quiescentNow() bool {
+	for _, s := range d.sides {
+		if s.tap.Closed() || s.tap.InClosed() {
+			// nobody reads this direction any more; what is queued stays
+			continue
+		}
+		if s.tap.InQueueLen() != 0 {
+			return false
+		}
+		if atomic.LoadInt32(&s.closed) == 0 && !s.tap.Idle() {
+			return false
+		}
+	}
+	n0 := d.log.Len()
+	parked, _ := rpcbench.AllParked("common.(*Watch).WaitDone")
+	if !parked || d.log.Len() != n0 {
+		return false
+	}
+	return true
+}
+
+// quiesceAndCheck waits for a quiescent point and runs the state oracles.
+func (d *duo) quiesceAndCheck(where string, final bool) bool {
+	if !d.await("quiescence "+where, d.quiescentNow) {
+		return false
+	}
+	d.cnt["quiescent_points"]++
+	for _, f := range d.w.TakeFaults() {
+		switch {
+		case strings.HasPrefix(f, "shutdown-twice"):
+			d.violate("C07/shutdown-twice", f, d.log.Tail(30))
+		case strings.HasPrefix(f, "call-after-shutdown"):
+			d.violate("C07/call-after-shutdown", f, d.log.Tail(30))
+		case strings.HasPrefix(f, "call-delivered-twice"):
+			d.violate("C06/call-delivered-twice", f, d.log.Tail(30))
+		}
+	}
+	d.checkOrder()
+	wire := analyzeWire(d.log.Snapshot(), d.w)
+	for _, v := range wire.viols {
+		if !d.wireReported(v[0] + v[1]) {
+			d.violate(v[0], v[1], d.log.Tail(40))
+		}
+	}
+	var snaps [2]rpc.VerifConnState
+	for i, s := range d.sides {
+		snaps[i] = s.conn.VerifSnapshot()
+		d.cnt["snapshots_taken"]++
+		if !snaps[i].Locked {
+			d.violate("C06/mutex-held-at-quiescence", "Conn.mu of "+s.name+" is held although nothing is running ("+where+")", d.log.Tail(30))
+			return true
+		}
+		if snaps[i].SenderLockHeld {
+			d.violate("C06/sender-lock-held-at-quiescence", "the sender lock of "+s.name+" is held although nothing is running ("+where+")", d.log.Tail(30))
+		}
+	}
+	if atomic.LoadInt32(&d.closing) != 0 {
+		return true
+	}
+	// conservation: wire log vs exporter's table vs importer's table
+	for i, s := range d.sides {
+		o := d.sides[1-i]
+		want := wire.exports[s.name]
+		ids := map[uint32]int{}
+		for id, n := range want {
+			if n != 0 {
+				ids[id] = 1
+			}
+		}
+		for id := range snaps[i].ExportRefs {
+			ids[id] = 1
+		}
+		for id := range snaps[1-i].ImportRefs {
+			ids[id] = 1
+		}
+		for _, id := range sortedKeysU32(ids) {
+			w, ex, im := want[id], int(snaps[i].ExportRefs[id]), snaps[1-i].ImportRefs[id]
+			d.cnt["export_counts_checked"]++
+			if ex != w {
+				cause := "conn-counts-less"
+				if ex > w {
+					cause = "conn-counts-more"
+				}
+				d.violate("C07/export-count-mismatch/"+cause, fmt.Sprintf("%s export %d: table says %d references, wire history gives %d (%s)", s.name, id, ex, w, where), d.log.Tail(40))
+			}
+			if im != w {
+				d.violate("C07/import-count-mismatch", fmt.Sprintf("%s import %d (export of %s): table says %d received references, wire history gives %d (%s)", o.name, id, s.name, im, w, where), d.log.Tail(40))
+			}
+		}
+	}
+	if final {
+		for i, s := range d.sides {
+			st := snaps[i]
+			if st.Questions != 0 || st.Answers != 0 || st.Embargoes != 0 {
+				d.violate("C06/table-residue", fmt.Sprintf("%s: questions=%d answers=%d embargoes=%d after everything was finished (%s)", s.name, st.Questions, st.Answers, st.Embargoes, where), d.log.Tail(40))
+			}
+			if len(st.ExportRefs) != 0 || len(st.ImportRefs) != 0 {
+				d.violate("C07/refs-left-after-release", fmt.Sprintf("%s: exports=%v imports=%v after every reference was released (%s)", s.name, st.ExportRefs, st.ImportRefs, where), d.log.Tail(40))
+			}
+		}
+		for _, v := range wire.openQuestions() {
+			d.violate("C06/return-missing", v, d.log.Tail(40))
+		}
+	}
+	return true
+}
+
+var wireSeen = map[string]bool{}
+
+func (d *duo) wireReported(k string) bool {
+	key := fmt.Sprintf("%d/%s", d.idx, k)
+	if wireSeen[key] {
+		return true
+	}
+	wireSeen[key] = true
+	return false
+}
+
+func (d *duo) checkOrder() {
+	for _, lc := range d.w.Caps() {
+		last := map[uint32]uint32{}
+		for _, uid := range lc.StartedCopy() {
+			o := d.w.Obs(uid)
+			if o == nil {
+				continue
+			}
+			if l, ok := last[o.Stream]; ok && o.Seq <= l {
+				if !d.wireReported(fmt.Sprintf("order%x", uid)) {
+					sig := "C06/order/duo"
+					if sentAfterReturnReceived(d.log.Snapshot(), uid) {
+						sig = "C06/order/embargo/call-sent-after-return-received"
+					}
+					d.violate(sig, fmt.Sprintf("capability #%d (%s) observed stream %d seq %d (uid %x) after seq %d", lc.N, lc.Who, o.Stream, o.Seq, uid, l), d.log.Tail(60))
+				}
+			}
+			last[o.Stream] = o.Seq
+		}
+		d.cnt["order_checked_calls"] = 0
+	}
+	n := int64(0)
+	for _, lc := range d.w.Caps() {
+		n += int64(len(lc.StartedCopy()))
+	}
+	d.cnt["order_checked_calls"] = n
+}
+
+func (d *duo) finish() {
+	// every worker resolves and releases what it holds
+	var left int32 = int32(len(d.workers))
+	for _, wk := range d.workers {
+		wk := wk
+		go func() {
+			defer atomic.AddInt32(&left, -1)
+			if p := common.Guard(wk.finishAll); p != nil {
+				wk.viols = append(wk.viols, [3]string{"panic/" + common.TopLibFrame(p.Stack), "panic in worker: " + p.Value, p.Stack})
+			}
+		}()
+	}
+	if !d.await("workers finishing", func() bool { return atomic.LoadInt32(&left) == 0 }) {
+		return
+	}
+	d.flushWorkerViolations()
+	d.w.ReleaseAll()
+	// plan-owned references
+	for _, h := range d.w.LiveHandles() {
+		if h.Plan != 0 {
+			if o := d.w.Obs(h.Plan); o != nil && !o.Done {
+				continue
+			}
+			d.w.MarkConsumed(h.Plan)
+			hh := h
+			d.do("release "+h.Label, func() { d.w.ReleaseHandle(hh) })
+		}
+	}
+	if atomic.LoadInt32(&d.closing) == 0 {
+		if !d.quiesceAndCheck("everything finished and released", true) {
+			return
+		}
+		// non-bootstrap capabilities lose their last reference now
+		for _, s := range d.sides {
+			for n, h := range s.base {
+				if n != s.boot.N {
+					hh := h
+					d.do("release "+h.Label, func() { d.w.ReleaseHandle(hh) })
+				}
+			}
+		}
+		if !d.quiesceAndCheck("base references released", true) {
+			return
+		}
+		for _, s := range d.sides {
+			for _, lc := range s.locals {
+				n, _ := lc.Shutdowns()
+				if lc != s.boot && n != 1 {
+					d.violate("C07/shutdown-missing/export", fmt.Sprintf("capability #%d of %s has no reference left but was shut down %d times", lc.N, s.name, n), d.log.Tail(40))
+				}
+				if lc == s.boot && n != 0 {
+					d.violate("C07/shutdown-while-held/bootstrap", fmt.Sprintf("bootstrap capability of %s was shut down before Close", s.name), d.log.Tail(40))
+				}
+			}
+		}
+	}
+	for _, s := range d.sides {
+		if atomic.CompareAndSwapInt32(&s.closed, 0, 1) {
+			ss := s
+			d.do("Close "+s.name, func() { ss.conn.Close() })
+			d.cnt["closes"]++
+		}
+	}
+	for _, h := range d.w.LiveHandles() {
+		if h.Plan != 0 {
+			d.w.MarkConsumed(h.Plan)
+		}
+		hh := h
+		d.do("release "+h.Label, func() { d.w.ReleaseHandle(hh) })
+	}
+	if !d.quiesceAndCheck("after Close", false) {
+		return
+	}
+	for _, s := range d.sides {
+		st := s.conn.VerifSnapshot()
+		if !st.ShutdownDone {
+			d.violate("C06/close-incomplete", "Close of "+s.name+" returned but Done() is not closed", d.log.Tail(20))
+		}
+		if st.Locked && (st.Questions != 0 || st.Answers != 0 || st.Embargoes != 0 || len(st.ExportRefs) != 0 || len(st.ImportRefs) != 0) {
+			d.violate("C07/leak-after-close/tables", fmt.Sprintf("%s: tables not empty after Close: %+v", s.name, st), d.log.Tail(20))
+		}
+		if n := s.tap.LiveMsgs(); n != 0 {
+			d.violate("C07/leak-after-close/messages", fmt.Sprintf("%s: %d transport messages were never released", s.name, n), d.log.Tail(20))
+		}
+		for _, lc := range s.locals {
+			n, _ := lc.Shutdowns()
+			d.cnt["shutdown_checks"]++
+			if n != 1 {
+				what := "export"
+				if lc == s.boot {
+					what = "bootstrap"
+				}
+				d.violate("C07/leak-after-close/"+what, fmt.Sprintf("capability #%d of %s was shut down %d times after Close and release of every reference", lc.N, s.name, n), d.log.Tail(40))
+			}
+		}
+	}
+	for _, msg := range collectLeaks() {
+		d.cnt["leakfunc_reports"]++
+		d.violate("C07/leak-after-close/leakfunc", "SetClientLeakFunc: "+msg, d.log.Tail(20))
+	}
 }
